@@ -20,7 +20,7 @@ use core::borrow::Borrow;
 use core::cmp::Ordering;
 
 /// Maximum number of entries per container in the model.
-pub const CAP: usize = 6;
+pub const CAP: usize = 2;
 
 fn empty_slots<T>() -> [Option<T>; CAP] {
     core::array::from_fn(|_| None)
